@@ -22,6 +22,7 @@ from ..interp import fmt, contains, subterms
 from ..model import AnalysisError, ClassInfo
 from .. import q
 from .. import wake
+from .. import roles
 from .c03 import terminal_on
 from .c02 import _no_cb_inline
 
@@ -152,13 +153,27 @@ def check(ctx, rep):
         ucalls = [e for e in p.calls() if e.d.get("user")]
         ok = bool(st) and st[0].d["value"] == ("const", None) and (not ucalls or st[0].seq < ucalls[0].seq)
         rep.ob("R-REFS-FUTURE", "MapFuture drops its delegate before mapping", ok, "", where_of(dr), trace_of(p))
-    wc = prog.cls("WeakCallback")
-    call = wc.methods.get("__call__")
-    ps, it = ctx.paths(call, wc, depth=0)
-    for p in ps:
-        dels = [e for e in p.evs("del") if e.d["target"] == ("attr", SELF, "_WeakCallback__delegate")]
-        calls = [e for e in p.calls() if e.d["func"] == ("attr", SELF, "_WeakCallback__delegate")]
-        rep.ob("R-REFS-FUTURE", "WeakCallback drops its target before calling it", len(dels) == 1 and len(calls) == 1 and dels[0].seq < calls[0].seq and tuple(calls[0].d["args"]) == (("star", ("seq", (), ("param", call.vararg), 0)),), "", where_of(call), trace_of(p))
+    wrappers = []
+    for fi in prog.functions.values():
+        if fi.parent is not None:
+            continue
+        for ci in ctx.instances(fi):
+            ps, it = ctx.paths(fi, ci, depth=0)
+            for p in ps:
+                for e in p.calls():
+                    if q.call_name(e) == "add_done_callback" and e.d["args"]:
+                        cb = e.d["args"][0]
+                        if isinstance(cb, tuple) and cb[0] == "new" and roles.is_wrapper_class(prog.classes.get(cb[1])) and prog.classes[cb[1]] not in wrappers:
+                            wrappers.append(prog.classes[cb[1]])
+    rep.count("callback wrapper classes used with add_done_callback", len(wrappers), 1)
+    for wc in wrappers:
+        call = wc.methods.get("__call__")
+        F = ("attr", SELF, roles.wrapper_field(ctx, wc))
+        ps, it = ctx.paths(call, wc, depth=0)
+        for p in ps:
+            dels = [e for e in p.evs("del") if e.d["target"] == F] + [e for e in p.evs("store") if e.d["target"] == F and e.d["value"] == ("const", None)]
+            calls = [e for e in p.calls() if e.d["func"] == F]
+            rep.ob("R-REFS-FUTURE", "%s drops its target before calling it" % wc.name, len(dels) >= 1 and len(calls) == 1 and dels[0].seq < calls[0].seq and tuple(calls[0].d["args"]) == (("star", ("seq", (), ("param", call.vararg), 0)),), "", where_of(call), trace_of(p))
 
     # ---- R-REFS-JOBS
     rex = prog.cls("RetryExecutor")
